@@ -86,6 +86,13 @@ pub struct Cfg {
     pub flavour: Flavour,
     pub actors: usize,
     pub start_ledger: u32,
+    /// the ledger's minimum lifetime of a temporary entry: 1 (storage lifetime = requested lifetime, as the property
+    /// prescribes) or the network default 16 (a shorter offer outlives its live_until_ledger, as the library documents)
+    #[serde(default = "one")]
+    pub min_ttl: u32,
+}
+fn one() -> u32 {
+    1
 }
 
 const MAX_TTL: u32 = 6_311_999; // e.storage().max_ttl() under SDK defaults (asserted at run time)
@@ -97,6 +104,7 @@ struct Model {
     /// deadlines of every offer ever made (for targeted clock moves and probes)
     past_deadlines: std::vec::Vec<u32>,
     now: u32,
+    min_ttl: u32,
 }
 impl Model {
     fn live(&self) -> Option<(usize, u32)> {
@@ -125,6 +133,8 @@ impl Model {
                     if l < self.now || l > self.now + MAX_TTL {
                         return false;
                     }
+                    // the entry lives to live_until, or for the ledger's minimum temporary lifetime if that is longer
+                    let l = l.max(self.now + self.min_ttl - 1);
                     self.pending = Some((new, l));
                     self.past_deadlines.push(l);
                     true
@@ -190,10 +200,10 @@ impl Check for Handshake {
         vec!["probe.offer_replaced_by_shorter", "probe.accept_at_deadline", "probe.accept_one_past_deadline", "probe.accept_after_cancel", "probe.accept_replaced_pending", "probe.renounce_while_pending", "probe.accept_in_window_of_longer_earlier_offer"]
     }
     fn generate(&self, rng: &mut Rng, tier: Tier) -> (Cfg, std::vec::Vec<Step>) {
-        let cfg = Cfg { flavour: *rng.pick(&[Flavour::Ownable, Flavour::AccessControl, Flavour::AccessControl, Flavour::OwnableExample]), actors: 3 + rng.below(3) as usize, start_ledger: 2 + rng.below(1_000_000) as u32 };
+        let cfg = Cfg { flavour: *rng.pick(&[Flavour::Ownable, Flavour::AccessControl, Flavour::AccessControl, Flavour::OwnableExample]), actors: 3 + rng.below(3) as usize, start_ledger: 2 + rng.below(1_000_000) as u32, min_ttl: if rng.chance(60) { 1 } else { 16 } };
         let n = cfg.actors as u64;
         let nsteps = if tier == Tier::Quick { 10 + rng.below(30) } else { 10 + rng.below(50) } as usize;
-        let mut m = Model { holder: Some(0), pending: None, past_deadlines: vec![], now: cfg.start_ledger };
+        let mut m = Model { holder: Some(0), pending: None, past_deadlines: vec![], now: cfg.start_ledger, min_ttl: cfg.min_ttl };
         let fault = if rng.chance(25) { 0 } else { 5 + rng.below(25) };
         let mut steps = vec![];
         for _ in 0..nsteps {
@@ -260,7 +270,7 @@ impl Check for Handshake {
         }
     }
     fn execute(&self, cfg: &Cfg, steps: &[Step], st: &mut Stats) -> Result<(), Violation> {
-        let w = W::new(cfg.actors, cfg.start_ledger, 1);
+        let w = W::new(cfg.actors, cfg.start_ledger, cfg.min_ttl);
         let e = &w.e;
         assert_eq!(e.storage().max_ttl(), MAX_TTL);
         let a = |i: usize| w.actors[i].clone();
@@ -277,7 +287,7 @@ impl Check for Handshake {
             Some(x) => w.set_auth(&[(x, Inv::new(&id, f, args))]),
             None => w.set_auth(&[]),
         };
-        let mut m = Model { holder: Some(0), pending: None, past_deadlines: vec![], now: cfg.start_ledger };
+        let mut m = Model { holder: Some(0), pending: None, past_deadlines: vec![], now: cfg.start_ledger, min_ttl: cfg.min_ttl };
         // history for probes: (account, deadline, how it ended)
         let mut longest_earlier: u32 = 0;
         for (i, s) in steps.iter().enumerate() {
